@@ -87,3 +87,8 @@ func Verif_C05_T2_HierFindMissingTouch() { verifScenarioHierTouch(true) }
 // T2 over a multi-digest existence check: every refresh a FindMissing performs on
 // behalf of one object touches that object's own entries with that object's bytes.
 func Verif_C05_T2_HierFindMissingTwoObjects() { verifScenarioHierFindMissingTwo() }
+
+// T3: an existence check answers "present" only for what the index still holds when the
+// check completes: an object that vanished between the scan and the refresh pass (rotated
+// out by the refresh of another object of the same request) is reported missing.
+func Verif_C05_T3_FlatFindMissingOutcomes() { verifScenarioFlatFindMissing() }
